@@ -67,7 +67,7 @@ Definition move (m : mem) (d s n : Z) : mem :=
 
 (* ---------- execution ---------- *)
 Record world := mkW { wm : mem; wtr : list ev; wn : nat; wbrk : Z }.
-Definition heap_gap := 64.
+Definition heap_stride := 1099511627776.   (* 2^40: the k-th live block starts at heap base + k * stride (blocks are smaller) *)
 
 Section Run.
   Variable fail : nat -> bool.       (* the k-th allocation request fails *)
@@ -83,7 +83,7 @@ Section Run.
         if fail (wn w)
         then run (k 0) (mkW (wm w) (EAlloc n 0 :: wtr w) (S (wn w)) (wbrk w))
         else run (k (wbrk w)) (mkW (wm w) (EAlloc n (wbrk w) :: wtr w) (S (wn w))
-                                   (wbrk w + Z.max n 0 + heap_gap))
+                                   (wbrk w + heap_stride))
     | Free a k => run k (mkW (wm w) (EFree a :: wtr w) (wn w) (wbrk w))
     | Static i k => run k (mkW (wm w) (EStatic i :: wtr w) (wn w) (wbrk w))
     end.
